@@ -6,11 +6,27 @@ use implode::exploder::Exploder;
 use implode::symbol::DEFAULT_CODE_TABLE;
 use pklib::{CompressionMode, DictionarySize, implode_bytes};
 
+/// Longest block `pklib::implode_bytes` encodes correctly: it never slides its work
+/// buffer, so beyond this many bytes it encodes the beginning of the input a second
+/// time and drops the rest, producing a well-formed stream of the wrong data
+pub(crate) const MAX_INPUT: usize = 8708;
+
 /// Compress data using PKWare DCL algorithm
 pub(crate) fn compress(data: &[u8]) -> Result<Vec<u8>> {
     // Handle empty data
     if data.is_empty() {
         return Ok(Vec::new());
+    }
+
+    // Refuse instead of corrupting (see `MAX_INPUT`)
+    if data.len() > MAX_INPUT {
+        return Err(compression_error(
+            "PKWare",
+            format!(
+                "blocks longer than {MAX_INPUT} bytes cannot be imploded ({} given)",
+                data.len()
+            ),
+        ));
     }
 
     // Use binary mode with 2KB dictionary as default for MPQ archives: it is the mode
@@ -51,7 +67,13 @@ pub(crate) fn decompress(data: &[u8], expected_size: usize) -> Result<Vec<u8>> {
     let mut input_pos = 0;
     let mut total_output = 0;
 
-    while !exploder.ended && input_pos < data.len() && total_output < expected_size {
+    // The exploder hands out one 4096 byte window per call and buffers up to eight
+    // input bytes, so the whole input can be consumed while a window is still pending
+    // (`need_swap`): keep calling it until that is delivered as well.
+    while !exploder.ended
+        && (input_pos < data.len() || exploder.need_swap)
+        && total_output < expected_size
+    {
         let remaining_input = &data[input_pos..];
 
         match exploder.explode_block(remaining_input) {
